@@ -78,7 +78,7 @@ def strategy(draw, tier="quick"):
         case["trr_vf"] = draw(st.sampled_from(["v", "f", "vf"]))       # velocity / force blocks as GROMACS writes them
     if draw(st.integers(0, 2)) == 0:
         case["atoms"] = sorted(set(draw(st.lists(st.integers(0, na - 1), min_size=1, max_size=4))))
-    long_ = fmt not in ("arc", "dtr") and draw(st.integers(0, 14)) == 0
+    long_ = fmt != "arc" and draw(st.integers(0, 14 if fmt != "dtr" else 5)) == 0      # (dtr: a new frame file every 256 frames)
     if long_:
         # a long file: more frames than an internal block / index page is likely to hold; positions around 256 and 512
         case.update(nf=draw(st.sampled_from([513, 600])), na=3, seed=0, long=True)
